@@ -281,4 +281,26 @@ def cloneRuntime (r : Nat) (h : Heap) (base : Addr) (fuel : Nat) (roots : Roots)
               memo := st4.memo
               next := st4.next }
 
+/-! ### runtime- and handle-level settings -/
+
+/-- what the embedder can configure on an `Otto` handle besides the heap -/
+inductive Setting
+  | stackLimit    -- SetStackDepthLimit   (runtime.stackLimit)
+  | traceLimit    -- SetStackTraceLimit   (runtime.traceLimit)
+  | random        -- SetRandomSource      (runtime.random)
+  | debugger      -- SetDebuggerHandler   (runtime.debugger)
+  | interrupt     -- the public field Otto.Interrupt (a channel the embedder sends halt functions on)
+  deriving Repr, DecidableEq
+
+/-- is the template's setting in force on a copy?  `runtime.clone` (clone.go:18-23) builds the new
+    runtime as `&runtime{debugger: rt.debugger, random: rt.random, stackLimit: rt.stackLimit,
+    traceLimit: rt.traceLimit}`; `Otto.Copy` (otto.go:635) builds a FRESH handle
+    `&Otto{runtime: …}`, whose `Interrupt` is the zero value. -/
+def carried : Setting → Bool
+  | .stackLimit => true
+  | .traceLimit => true
+  | .random => true
+  | .debugger => true
+  | .interrupt => false
+
 end OttoVerif.C17
